@@ -156,6 +156,13 @@ def main(tier):
             if s["n"] >= 10000:
                 large.setdefault(s["n"], []).append(s)
         pick = small + [grp[i] for grp in large.values() for i in rng.choice(len(grp), min(150, len(grp)), replace=False)]
+    # sizes between the enumerated ones: a seeded draw of grain counts (different seeds visit different counts; an
+    # internal switch-over at an unremarkable count - 37, 100, 4633 - is met by the counts on either side of it)
+    extra = []
+    for j in range(40 if quick else 400):
+        base = pick[int(rng.integers(len(pick)))]
+        extra.append(dict(base, n=int(rng.integers(3, 6000))))
+    pick = list(pick) + extra
     for sc in pick:
         if sc["n"] >= 10000 and sc["ori"] not in ("generic", "mixed", "near1e-12"):
             continue
